@@ -49,6 +49,16 @@ theorem putAll_apply {α β : Type} [DecidableEq α] (f : α → Option β) (v :
   | nil => rfl
   | cons c cs ih => obtain ⟨o, row⟩ := c; simp [insertCells, ih]
 
+@[simp] theorem insertCells_epochNum (m : Main) (cs) : (insertCells m cs).epochNum = m.epochNum := by
+  induction cs generalizing m with
+  | nil => rfl
+  | cons c cs ih => obtain ⟨o, row⟩ := c; simp [insertCells, ih]
+
+@[simp] theorem deleteCells_epochNum (m : Main) (os) : (deleteCells m os).epochNum = m.epochNum := by
+  induction os generalizing m with
+  | nil => rfl
+  | cons o os ih => simp [deleteCells, ih]
+
 @[simp] theorem deleteCells_txInfo (m : Main) (os) : (deleteCells m os).txInfo = m.txInfo := by
   induction os generalizing m with
   | nil => rfl
@@ -225,17 +235,19 @@ theorem putTxInfos_mem (b : Block) (f : Nat → Option TxInfo) (i : Nat) (ts : L
 
 /-! ### attach / detach leave the cell map alone, attachCell / detachCell leave the others alone -/
 
-@[simp] theorem attach_cells (m : Main) (b : Block) : (attach m b).cells = m.cells := rfl
-@[simp] theorem detach_cells (m : Main) (b : Block) : (detach m b).cells = m.cells := rfl
-@[simp] theorem attach_tip (m : Main) (b : Block) : (attach m b).tip = m.tip := rfl
-@[simp] theorem detach_tip (m : Main) (b : Block) : (detach m b).tip = m.tip := rfl
-@[simp] theorem attach_curEpoch (m : Main) (b : Block) : (attach m b).curEpoch = m.curEpoch := rfl
-@[simp] theorem detach_curEpoch (m : Main) (b : Block) : (detach m b).curEpoch = m.curEpoch := rfl
+@[simp] theorem attach_cells (m : Main) (e) (b : Block) : (attach m e b).cells = m.cells := rfl
+@[simp] theorem detach_cells (m : Main) (e) (b : Block) : (detach m e b).cells = m.cells := rfl
+@[simp] theorem attach_tip (m : Main) (e) (b : Block) : (attach m e b).tip = m.tip := rfl
+@[simp] theorem detach_tip (m : Main) (e) (b : Block) : (detach m e b).tip = m.tip := rfl
+@[simp] theorem attach_curEpoch (m : Main) (e) (b : Block) : (attach m e b).curEpoch = m.curEpoch := rfl
+@[simp] theorem detach_curEpoch (m : Main) (e) (b : Block) : (detach m e b).curEpoch = m.curEpoch := rfl
 
 @[simp] theorem attachCell_txInfo (m : Main) (b : Block) : (attachCell m b).txInfo = m.txInfo := by simp [attachCell]
 @[simp] theorem attachCell_index (m : Main) (b : Block) : (attachCell m b).index = m.index := by simp [attachCell]
 @[simp] theorem attachCell_rindex (m : Main) (b : Block) : (attachCell m b).rindex = m.rindex := by simp [attachCell]
 @[simp] theorem attachCell_uncles (m : Main) (b : Block) : (attachCell m b).uncles = m.uncles := by simp [attachCell]
+@[simp] theorem attachCell_epochNum (m : Main) (b : Block) : (attachCell m b).epochNum = m.epochNum := by simp [attachCell]
+@[simp] theorem detachCell_epochNum (m : Main) (r : Recs) (b : Block) : (detachCell m r b).epochNum = m.epochNum := by simp [detachCell]
 @[simp] theorem attachCell_tip (m : Main) (b : Block) : (attachCell m b).tip = m.tip := by simp [attachCell]
 @[simp] theorem attachCell_curEpoch (m : Main) (b : Block) : (attachCell m b).curEpoch = m.curEpoch := by simp [attachCell]
 @[simp] theorem detachCell_txInfo (m : Main) (r : Recs) (b : Block) : (detachCell m r b).txInfo = m.txInfo := by simp [detachCell]
@@ -246,7 +258,8 @@ theorem putTxInfos_mem (b : Block) (f : Nat → Option TxInfo) (i : Nat) (ts : L
 @[simp] theorem detachCell_curEpoch (m : Main) (r : Recs) (b : Block) : (detachCell m r b).curEpoch = m.curEpoch := by simp [detachCell]
 
 theorem Main.ext' {a b : Main} (h1 : a.cells = b.cells) (h2 : a.txInfo = b.txInfo) (h3 : a.index = b.index)
-    (h4 : a.rindex = b.rindex) (h5 : a.uncles = b.uncles) (h6 : a.tip = b.tip) (h7 : a.curEpoch = b.curEpoch) :
+    (h4 : a.rindex = b.rindex) (h5 : a.uncles = b.uncles) (h8 : a.epochNum = b.epochNum) (h6 : a.tip = b.tip)
+    (h7 : a.curEpoch = b.curEpoch) :
     a = b := by
   cases a; cases b; simp_all
 
